@@ -174,6 +174,7 @@ type runResult struct {
 	assumed   []string
 	solverSec float64
 	sel       selection
+	bounded   []*boundedResult
 }
 
 func hasProp(c *Contract, props []string) bool {
@@ -267,6 +268,21 @@ func run(cfg runConfig) (*runResult, error) {
 		o := e.lemmaObligation(lm)
 		o.Props = cfg.props
 		e.obls = append(e.obls, o)
+	}
+	// bounded execution stand-ins attached to (trusted) contracts of this property
+	if cfg.prop != "" && cfg.funcs == "" {
+		var bk []string
+		for k, c := range db.Contracts {
+			if len(c.BoundedChecks) > 0 && hasProp(c, []string{cfg.prop}) {
+				bk = append(bk, k)
+			}
+		}
+		sort.Strings(bk)
+		for _, k := range bk {
+			for _, h := range db.Contracts[k].BoundedChecks {
+				res.bounded = append(res.bounded, runBounded(cfg.repo, shortKeyName(k), h))
+			}
+		}
 	}
 	if cfg.prop == "C05" || cfg.tables {
 		td := e.loadTables(cfg.repo)
@@ -520,6 +536,18 @@ func cmdCheck(args []string) int {
 		fmt.Println("  ERROR", er)
 		viols = append(viols, &violation{Obligation: fmt.Sprintf("engine.error.%d", i), Kind: "engine", Statement: "every contracted function can be symbolically executed and every contract binds", Status: "error", Output: er})
 	}
+	for _, b := range res.bounded {
+		if b.Error != "" {
+			viols = append(viols, &violation{Obligation: "bounded." + b.Harness, Kind: "engine", Statement: "the bounded stand-in for " + b.Function + " runs", Status: "error", Output: b.Error})
+			fmt.Println("  ERROR bounded", b.Harness, b.Error)
+		} else if b.Failed > 0 {
+			viols = append(viols, &violation{Obligation: "bounded." + b.Harness, Kind: "bounded", Statement: "contract of " + b.Function + " on every input of the bounded grid (" + b.Bound + ")", Status: "failing-input", Output: strings.Join(b.Failures, "\n"),
+				Replay: &replayResult{Attempted: true, Failing: true, Input: b.Failures[0], Observed: "the real function's output violates its contract for this input (executed with go test -overlay)"}})
+			fmt.Printf("  FAIL bounded %s: %d of %d cases fail, e.g. %s\n", b.Harness, b.Failed, b.Cases, trunc(b.Failures[0], 300))
+		} else {
+			fmt.Printf("  bounded %s: %d cases ok (stand-in, not a proof)\n", b.Harness, b.Cases)
+		}
+	}
 	nobl := 0
 	for _, o := range res.obls {
 		if o.Kind != "cover" {
@@ -534,7 +562,7 @@ func cmdCheck(args []string) int {
 		_ = os.RemoveAll(filepath.Join(*replayDir, cfg.prop))
 		var vs []violation
 		for _, v := range viols {
-			if v.Kind != "engine" && v.Kind != "cover" {
+			if v.Kind != "engine" && v.Kind != "cover" && v.Kind != "bounded" {
 				v.Replay = tryReplay(cfg, res, v)
 			}
 			writeViolation(*replayDir, cfg.prop, v)
